@@ -52,7 +52,9 @@ func (c *EventCache) Add(event *Event) (added bool) {
 
 	eventKey := c.getEventKey(event)
 
-	if c.isDeleted(eventKey, event.Pubkey) {
+	// A deletion request names its targets by address (a tag) or by id (e
+	// tag). Only regular events are keyed by their id.
+	if c.isDeleted(eventKey, event.Pubkey) || c.isDeleted(event.ID, event.Pubkey) {
 		return false
 	}
 
@@ -115,6 +117,11 @@ func (c *EventCache) deleteByKind5(event *Event) {
 
 	for _, key := range keys {
 		c.delete(eventCacheDeletedEventKey{key, event.Pubkey})
+
+		// key may be the id of a replaceable event, which is not stored under its id
+		for ev := range c.evsIndex.idx[eventCacheEvsIndexKey{eventCacheEvsIndexKeyWhatID, key}] {
+			c.delete(eventCacheDeletedEventKey{c.getEventKey(ev), event.Pubkey})
+		}
 	}
 }
 
